@@ -1,6 +1,8 @@
 package smgp30
 
 import (
+	"strings"
+
 	sms "github.com/hujm2023/go-sms-protocol"
 	"github.com/hujm2023/go-sms-protocol/packet"
 	"github.com/hujm2023/go-sms-protocol/smgp"
@@ -35,7 +37,7 @@ func (p *Login) IDecode(data []byte) error {
 
 	p.Header = smgp.ReadHeader(buf)
 	p.ClientID = buf.ReadCStringN(8)
-	p.AuthenticatorClient = buf.ReadCStringN(16)
+	p.AuthenticatorClient = buf.ReadCStringNWithoutTrim(16)
 	p.LoginMode = buf.ReadUint8()
 	p.Timestamp = buf.ReadUint32()
 	p.Version = buf.ReadUint8()
@@ -112,7 +114,9 @@ func (c *LoginResp) IDecode(data []byte) error {
 
 	c.Header = smgp.ReadHeader(buf)
 	c.Status = buf.ReadUint32()
-	c.AuthenticatorServer = buf.ReadCStringN(16)
+	// 16 binary octets (MD5 digest). Only the trailing NUL padding of a shorter
+	// value is dropped; a 0x00 inside the digest must survive.
+	c.AuthenticatorServer = strings.TrimRight(buf.ReadCStringNWithoutTrim(16), "\x00")
 	c.ServerVersion = buf.ReadUint8()
 	return buf.Error()
 }
